@@ -61,3 +61,21 @@ Print Assumptions gather_layout_free.
 Theorem loop_modelled : Gen.BatchLoop.loop_variant = 0 \/ Gen.BatchLoop.loop_variant = 1.
 Proof. exact loop_modelled_l. Qed.
 Print Assumptions loop_modelled.
+
+(* ---- code-level tie (docs/py2coq.md): the BODY of the dispatch loop (`dispatches = []` .. `for tx_id in
+        tx_sorted:`), translated from /repo's current source by harness/translate/py2coq.py into
+        coq/Gen/Py_call_variant_peptide.v on every run, hands exactly the batches of the repaired-loop model to
+        caller_reducer, for every thread count and every skip pattern.  Stronger than loop_modelled (a text match):
+        it survives harmless rewrites of the loop and breaks on any semantic edit of it. ---- *)
+From MoPep Require Gen.Py_call_variant_peptide.
+From MoPep Require Import Proofs.Py2CoqBatchProofs.
+
+Theorem code_batching_loop_translated :
+  Py_call_variant_peptide.call_variant_peptide_batches_untranslated = false.
+Proof. vm_compute. reflexivity. Qed.
+Print Assumptions code_batching_loop_translated.
+
+Theorem code_call_variant_peptide_batches_is_model : forall threads l,
+  Py_call_variant_peptide.call_variant_peptide_batches threads l = batches_fix threads l.
+Proof. exact code_call_variant_peptide_batches_is_model_l. Qed.
+Print Assumptions code_call_variant_peptide_batches_is_model.
